@@ -966,14 +966,66 @@ func (g *Gen) processBlock(b *ssa.BasicBlock) {
 
 // ---------- loops ----------
 
-func (g *Gen) loopWrites(li *loopInfo) map[string]bool {
+func (g *Gen) loopWrites(li *loopInfo) (map[string]bool, map[string][]ssa.Value) {
 	ws := map[string]bool{}
+	targets := map[string][]ssa.Value{} // region -> objects allocated by this function before the loop that the loop stores into
 	for b := range li.body {
 		for _, in := range b.Instrs {
-			g.eng.instrWrites(g.fn, in, ws, nil)
+			one := map[string]bool{}
+			g.eng.instrWrites(g.fn, in, one, nil)
+			// instrWrites calls a write "fresh-only" when its target is allocated by this function; for the
+			// loop's frame only objects allocated INSIDE the loop are new: a store into something allocated
+			// before the loop (an accumulator map, a local buffer) changes that one pre-loop object
+			pre := writesPreLoopAlloc(in, li)
+			for k, w := range one {
+				addWS(ws, k, w)
+				if pre != nil && !w && k != "alloc" {
+					targets[k] = append(targets[k], pre)
+				}
+			}
 		}
 	}
-	return ws
+	return ws, targets
+}
+
+// writesPreLoopAlloc: does the instruction store through an object that this function allocates outside the loop?
+func writesPreLoopAlloc(in ssa.Instruction, li *loopInfo) ssa.Value {
+	var roots []ssa.Value
+	switch x := in.(type) {
+	case *ssa.Store:
+		roots = append(roots, x.Addr)
+	case *ssa.MapUpdate:
+		roots = append(roots, x.Map)
+	case ssa.CallInstruction:
+		c := x.Common()
+		if b, ok := c.Value.(*ssa.Builtin); ok && (b.Name() == "copy" || b.Name() == "append" || b.Name() == "delete" || b.Name() == "clear") && len(c.Args) > 0 {
+			roots = append(roots, c.Args[0])
+		}
+	}
+	for _, r := range roots {
+		v := r
+		for {
+			switch y := v.(type) {
+			case *ssa.FieldAddr:
+				v = y.X
+				continue
+			case *ssa.IndexAddr:
+				v = y.X
+				continue
+			case *ssa.Slice:
+				v = y.X
+				continue
+			}
+			break
+		}
+		switch y := v.(type) {
+		case *ssa.Alloc, *ssa.MakeMap, *ssa.MakeSlice:
+			if in2, ok := y.(ssa.Instruction); ok && !li.body[in2.Block()] {
+				return y
+			}
+		}
+	}
+	return nil
 }
 
 func (g *Gen) phiEnvName(phi *ssa.Phi) string {
@@ -1036,7 +1088,7 @@ func (g *Gen) enterLoop(li *loopInfo, st *BState, phiEntry map[*ssa.Phi]string) 
 	}
 	g.checkPkgInvs(st, "I.init", fmt.Sprintf("loop%d:pkginv:", li.ordinal), pos, "true")
 	// havoc
-	ws := g.loopWrites(li)
+	ws, preTargets := g.loopWrites(li)
 	preHeap := st.heap.clone()
 	lkeys := sortedKeys(ws)
 	for i, k := range lkeys {
@@ -1059,9 +1111,20 @@ func (g *Gen) enterLoop(li *loopInfo, st *BState, phiEntry map[*ssa.Phi]string) 
 		if r.Kind == "alloc" {
 			g.assume(st, fmt.Sprintf("(and (not (select %s 0)) (forall ((r Int)) (! (=> (select %s r) (select %s r)) :pattern ((select %s r)))))", n, old, n, n))
 		} else if !ws[k] && (r.Kind == "field" || r.Kind == "cell" || r.Kind == "elem" || r.Kind == "mapdom" || r.Kind == "mapval" || r.Kind == "maplen") {
-			// written only on objects allocated inside the loop: everything allocated before keeps its value
+			// written only on objects allocated inside the loop, and on the listed objects this function
+			// allocated before the loop: everything else allocated before keeps its value
 			al := g.heapGet(preHeap, g.allocRegion())
-			g.assume(st, fmt.Sprintf("(forall ((r Int)) (! (=> (or (select %s %s) %s) (= (select %s r) (select %s r))) :pattern ((select %s r))))", al, g.ownR(r, "r"), g.notFreshOf(r, st.heap), n, old, n))
+			except := "true"
+			var ne []string
+			for _, tv := range preTargets[k] {
+				if ref := g.allocRefTerm(tv); ref != "" {
+					ne = append(ne, fmt.Sprintf("(not (= r %s))", ref))
+				}
+			}
+			if len(ne) > 0 {
+				except = "(and " + strings.Join(ne, " ") + ")"
+			}
+			g.assume(st, fmt.Sprintf("(forall ((r Int)) (! (=> (or (and (select %s %s) %s) %s) (= (select %s r) (select %s r))) :pattern ((select %s r))))", al, g.ownR(r, "r"), except, g.notFreshOf(r, st.heap), n, old, n))
 		}
 	}
 	phiVals := map[*ssa.Phi]string{}
@@ -1299,4 +1362,16 @@ func (g *Gen) addrNames(at *ssa.BasicBlock, self bool, env *Env) {
 			env.vars[n] = EnvVal{term: "0", ty: VType{Go: al.Type()}, loc: &Loc{Kind: "cell", Region: g.cellRegion(et), Ref: ref, Type: et, Fresh: true}}
 		}
 	}
+}
+
+// allocRefTerm: the reference (object, array or map) that an allocation instruction of this function denotes.
+func (g *Gen) allocRefTerm(v ssa.Value) string {
+	t, ok := g.vals[v]
+	if !ok {
+		return ""
+	}
+	if _, isSlice := v.(*ssa.MakeSlice); isSlice {
+		return "(s-arr " + t + ")"
+	}
+	return t
 }
